@@ -365,7 +365,13 @@ Result run(const std::vector<std::function<void()>> &tasks, const Config &cfg) {
             mprotect(g_stacks[i], 4096, PROT_NONE);
         }
         t.stack = g_stacks[i];
-        memset(t.stack + 4096, 0, STACK_SIZE); // simulator-defined residue
+        // simulator-defined residue: the hot top of the stack is cleared directly, the
+        // rarely touched remainder is handed back to the kernel (reads as zero again)
+        {
+            const size_t HOT = 32 * 1024;
+            memset(t.stack + 4096 + STACK_SIZE - HOT, 0, HOT);
+            madvise(t.stack + 4096, STACK_SIZE - HOT, MADV_DONTNEED);
+        }
         t.finished = t.blocked = false;
         t.in_lib = 0;
         t.locks = 0;
